@@ -302,6 +302,9 @@ def orbit_cardinality(orbit: list, modes: int) -> Union[int, float]:
     Returns:
         int: number of samples in the orbit
     """
+    if modes < len(orbit):
+        return 0  # the orbit does not fit into the modes: no sample belongs to it
+
     sample = orbit + [0] * (modes - len(orbit))
     counts = list(Counter(sample).values())
 
